@@ -117,6 +117,7 @@ func (r *rec) manage() {
 func scenario(c conf, bound int) schk.Scenario {
 	return schk.Scenario{
 		Name: c.String(), Bound: bound, RaceBound: 1, ExpectDeadlock: true,
+		RaceSig: fmt.Sprintf("data-race|%s|%s", c.variant, c.manager),
 		Body: func(s *vrt.Sched) any {
 			r := &rec{c: c, ps: &chans.PubSub[int]{}}
 			if c.timeout {
